@@ -87,8 +87,24 @@ func (s Snap) SameValue(o Snap) bool { return s.Val().Equal(o.Val()) && s.Malfor
 // WordsToDigits renders little-endian base-10^19 words as a digit string, most
 // significant digit first, 19 digits per word (leading zeros kept).
 func WordsToDigits(w []uint64) string {
+	b := make([]byte, len(w)*DW)
+	for i := len(w) - 1; i >= 0; i-- {
+		v := w[i]
+		if v >= Base {
+			// malformed word: keep it visible instead of silently wrapping
+			return wordsToDigitsSlow(w)
+		}
+		o := (len(w) - 1 - i) * DW
+		for j := DW - 1; j >= 0; j-- {
+			b[o+j] = byte('0' + v%10)
+			v /= 10
+		}
+	}
+	return string(b)
+}
+
+func wordsToDigitsSlow(w []uint64) string {
 	var b strings.Builder
-	b.Grow(len(w) * DW)
 	for i := len(w) - 1; i >= 0; i-- {
 		fmt.Fprintf(&b, "%019d", w[i])
 	}
